@@ -52,6 +52,16 @@ func HarnessC20MetricsPublisher() {
 		vrt.Assert((err != nil) == inner.fail, "the inner result passes through")
 	}
 	vrt.Assert(inner.calls == n, "every call reaches the inner publisher once")
+	if vrt.Bool("then.a.batch.of.two") {
+		// the decorator is transparent for the messages themselves: each keeps what its own context carries
+		type k struct{}
+		ma, mb := message.NewMessage("a", nil), message.NewMessage("b", nil)
+		ma.SetContext(context.WithValue(context.Background(), k{}, "ctx-of-a"))
+		mb.SetContext(context.WithValue(context.Background(), k{}, "ctx-of-b"))
+		_ = pub.Publish("t", ma, mb)
+		vrt.Assert(ma.Context().Value(k{}) == "ctx-of-a" && mb.Context().Value(k{}) == "ctx-of-b", "every message of a batch keeps its own context")
+		n++
+	}
 	success := "true"
 	if inner.fail {
 		success = "false"
